@@ -378,7 +378,7 @@ func (sp *Spec) ApplyDeposit(st *State, data *DepositData) {
 	msg := DepositMessage{Pubkey: data.Pubkey, WithdrawalCredentials: data.WithdrawalCredentials, Amount: data.Amount}
 	domain := sp.ComputeDomain(DOMAIN_DEPOSIT, sp.ForkVersions[Phase0], Root{})
 	sr := sp.SigningRoot(refssz.RootOf(sp.S.DepositMessage, msg), domain)
-	if !BLSVerify(data.Pubkey, sr, data.Signature) {
+	if !sp.SkipDepositChecks && !BLSVerify(data.Pubkey, sr, data.Signature) {
 		return
 	}
 	st.Validators = append(st.Validators, sp.validatorFromDeposit(data.Pubkey, data.WithdrawalCredentials, data.Amount))
@@ -392,7 +392,7 @@ func (sp *Spec) ApplyDeposit(st *State, data *DepositData) {
 
 func (sp *Spec) ProcessDeposit(st *State, dep *Deposit) error {
 	leaf := refssz.RootOf(sp.S.DepositData, dep.Data)
-	if !IsValidMerkleBranch(leaf, dep.Proof[:], DEPOSIT_CONTRACT_TREE_DEPTH+1, st.Eth1DepositIndex, st.Eth1Data.DepositRoot) {
+	if !sp.SkipDepositChecks && !IsValidMerkleBranch(leaf, dep.Proof[:], DEPOSIT_CONTRACT_TREE_DEPTH+1, st.Eth1DepositIndex, st.Eth1Data.DepositRoot) {
 		return reject("deposit: is_valid_merkle_branch")
 	}
 	st.Eth1DepositIndex++
